@@ -335,6 +335,19 @@ class LogSpace(Structured):
             return argforms[0]
         if meth is not None:
             self.form(f.value, env, stmt)
+        # a module-level helper of the same module: analyse its body with the parameters bound to the argument forms
+        if isinstance(f, ast.Name) and f.id in self.fi.module.funcs and getattr(self, 'depth', 0) < 3 \
+                and self.fi.module.funcs[f.id] is not self.fi:
+            h = self.fi.module.funcs[f.id]
+            if len(h.params) >= len(e.args):
+                sub = LogSpace(h, self.scalar_names)
+                sub.depth = getattr(self, 'depth', 0) + 1
+                init = {p: a for p, a in zip(h.params, argforms) if a is not None}
+                sub.exits(h.body, init)
+                self.sites.update(sub.sites)
+                outs = [fr for s_, v_, fr, en_ in sub.returned]
+                if outs and all(o == outs[0] for o in outs):
+                    return outs[0]
         return Form({(1, ('call', U(e)[:80]))})
 
     def exp_site(self, node, operand, form, env, stmt, out):
